@@ -152,6 +152,15 @@ pub fn gen(tier: &str, seed: u64, out: &mut dyn Write) {
     }
     emit(out, &scratch, &format!("rich=0 load=0 stores=0 sabot=0 kinds=0 pre=2 craft=0 e=ie.0,ie.2,ie.5,lx.{}", hexs("public.default")));
     emit(out, &scratch, &format!("rich=0 load=1 stores=0 sabot=0 kinds=0 pre=5 craft=0 e=lx.{},lx.{}", hexs("fresh"), hexs("public.default")));
+    // names that clash after sanitising (glyphs and layers, both insertion orders): as many files / directories as names
+    for n in 0..6 {
+        for order in 0..2 {
+            for load in 0..2 {
+                emit(out, &scratch, &format!("rich={} load={} stores=0 sabot=0 kinds=0 pre={} craft=0 e=gp.{}.{}", [0u32, 3][load as usize], load, 2 * load, n, order));
+                emit(out, &scratch, &format!("rich={} load={} stores=0 sabot=0 kinds=0 pre={} craft=0 e=lp.{}.{},gp.{}.{}", [1u32, 7][load as usize], load, 5 * load, n, order, (n + 1) % 6, 1 - order));
+            }
+        }
+    }
     // other entry points, other spellings of the target, fonts from partial loads (phase 3 review)
     for wo in 1..=2 {
         for pre in 0..6 {
